@@ -428,9 +428,12 @@ def gen_ports_script(rng, nsteps=None):
                         th = rng.randrange(n)
                         dst = th
                     lports = sorted(o["port"] for o in objs[th].values() if o["t"] == "lst") if th is not None else []
-                    if th == h:
-                        # a connect to the host's own ephemeral range can hit its own local port
-                        lports = [p for p in lports if not lo <= p <= hi]
+                    # A listener port inside the ephemeral range can later be the SOURCE port of a
+                    # connect in the other direction: the two 4-tuples coincide and a stray RST /
+                    # accept hits the wrong entry (no TIME_WAIT in turmoil; outside C15).  Random
+                    # scripts connect to ports outside the range only; streams accepted from
+                    # in-range listeners are covered by gen_accept_wrap_script.
+                    lports = [p for p in lports if not lo <= p <= hi]
                     port = rng.choice(lports) if lports and rng.random() < 0.8 else rng.choice(FIXED)
                     s = sid()
                     cmds.append(["connect", s, dst, port])
